@@ -99,6 +99,9 @@ fn cfg_from(v: &Value) -> Option<EndCfg> {
     })
 }
 
+/// How often each first-operation style (plain, vectored x3, vectored x2, flush-first) was used.
+static WRITE_STYLES: [std::sync::Mutex<u64>; 4] = [std::sync::Mutex::new(0), std::sync::Mutex::new(0), std::sync::Mutex::new(0), std::sync::Mutex::new(0)];
+
 #[derive(Debug, Default)]
 struct Side {
     /// negotiated protocol as reported by the negotiation future
@@ -119,9 +122,52 @@ async fn exchange<S: AsyncRead + AsyncWrite + Unpin>(mut io: S, side: &mut Side,
     let mut mine = vec![0u8; my_len];
     prf_fill(my_seed, 0, &mut mine);
     side.stage = "write";
-    if let Err(e) = io.write_all(&mine).await {
-        side.err = Some(format!("write: {:?}", e.kind()));
-        return;
+    // The first operation on the negotiated stream varies with the case (derived from the payload
+    // seed, so replays are exact): plain writes, vectored writes (1..3 slices per call, a separate
+    // entry point of `Negotiated`/`LengthDelimitedReader`), or a flush before the first write.
+    let style = (my_seed >> 17) % 4;
+    if style == 3 {
+        if let Err(e) = io.flush().await {
+            side.err = Some(format!("flush-first: {:?}", e.kind()));
+            return;
+        }
+    }
+    if style == 1 || style == 2 {
+        let mut off = 0;
+        let mut k = my_seed >> 23;
+        while off < mine.len() {
+            let rest = &mine[off..];
+            let a = (k % 7) as usize % (rest.len() + 1);
+            k = k.wrapping_mul(0x9e3779b97f4a7c15).rotate_left(13) | 1;
+            let b = a + (k % 11) as usize % (rest.len() - a + 1);
+            let bufs = [std::io::IoSlice::new(&rest[..a]), std::io::IoSlice::new(&rest[a..b]), std::io::IoSlice::new(&rest[b..])];
+            match io.write_vectored(&bufs[..(if style == 1 { 3 } else { 2 })]).await {
+                Ok(0) if b == 0 && style == 2 => {
+                    // both offered slices were empty: fall back to a plain write of one byte
+                    if let Err(e) = io.write_all(&rest[..1]).await {
+                        side.err = Some(format!("write: {:?}", e.kind()));
+                        return;
+                    }
+                    off += 1;
+                }
+                Ok(0) => {
+                    side.err = Some("write_vectored: wrote 0 bytes of a non-empty buffer list".to_string());
+                    return;
+                }
+                Ok(n) => off += n,
+                Err(e) => {
+                    side.err = Some(format!("write_vectored: {:?}", e.kind()));
+                    return;
+                }
+            }
+        }
+        *WRITE_STYLES[style as usize].lock().unwrap() += 1;
+    } else {
+        if let Err(e) = io.write_all(&mine).await {
+            side.err = Some(format!("write: {:?}", e.kind()));
+            return;
+        }
+        *WRITE_STYLES[style as usize].lock().unwrap() += 1;
     }
     side.stage = "flush";
     if let Err(e) = io.flush().await {
@@ -681,6 +727,10 @@ pub fn run(ctx: &Ctx) -> Report {
     // node level: proposal order and fallback mapping on real substreams
     crate::nodex::c03_node_level(ctx, &mut rep);
     rep.extra.insert("exhaustive_subspaces".into(), json!(["message variant: main x fallback subsets x listener subsets over 4 names x 4 groupings"]));
+    for (i, name) in ["first_op_plain_write", "first_op_vectored3", "first_op_vectored2", "first_op_flush_then_write"].iter().enumerate() {
+        rep.count(name, *WRITE_STYLES[i].lock().unwrap());
+        rep.floor(name, 20);
+    }
     rep.floor("expected_success", 50);
     rep.floor("expected_failure", 20);
     rep.floor("transparent_directions", 50);
